@@ -300,6 +300,46 @@ pub fn run(ctx: &Ctx) -> Report {
     }
     stm.samples.truncate(1);
     total.merge(stm);
+    // a pair of tests that no file can satisfy together (or that every file satisfies), then a
+    // construct the target cannot express: it is refused all the same - a shortcut for dead
+    // branches must not swallow it
+    let mut std_ = Stats::new();
+    let t = |x: Tst| E::T(x);
+    let dead_pairs: Vec<(E, E)> = vec![
+        (t(Tst::Links(Cmp::Gt, 9)), t(Tst::Links(Cmp::Lt, 2))),
+        (t(Tst::Uid(Cmp::Gt, 1000)), t(Tst::Uid(Cmp::Lt, 10))),
+        (t(Tst::Gid(Cmp::Eq, 1)), t(Tst::Gid(Cmp::Eq, 2))),
+        (t(Tst::Inum(Cmp::Gt, 5)), t(Tst::Inum(Cmp::Lt, 5))),
+        (t(Tst::Size(Cmp::Gt, 2, SUnit::M)), t(Tst::Size(Cmp::Lt, 1, SUnit::K))),
+        (t(Tst::Size(Cmp::Gt, 2, SUnit::K)), t(Tst::Size(Cmp::Lt, 1, SUnit::K))),
+        (t(Tst::Time(Which::M, Cmp::Gt, 9, TUnit::D)), t(Tst::Time(Which::M, Cmp::Lt, 2, TUnit::D))),
+        (t(Tst::MirrorCount(Cmp::Gt, 3)), t(Tst::MirrorCount(Cmp::Lt, 1))),
+        (t(Tst::StripeCount(Cmp::Eq, 3)), t(Tst::StripeCount(Cmp::Eq, 4))),
+        (t(Tst::Type(vec![FT::F])), t(Tst::Type(vec![FT::D]))),
+        (t(Tst::Perm(PKind::Equal, 0o644)), t(Tst::Perm(PKind::Equal, 0o600))),
+        (t(Tst::Name("a".into())), t(Tst::Name("b".into()))),
+        (t(Tst::False), t(Tst::True)),
+        (t(Tst::Uid(Cmp::Lt, 0)), t(Tst::True)),
+    ];
+    for (a, b) in &dead_pairs {
+        for u in crate::combo::unsupported_leaves() {
+            for (x, y) in [(a, b), (b, a)] {
+                for tr in [
+                    E::and(E::and(x.clone(), y.clone()), u.clone()),
+                    E::and(x.clone(), E::and(y.clone(), u.clone())),
+                    E::list(E::and(x.clone(), y.clone()), u.clone()),
+                    E::or(E::or(E::not(x.clone()), E::not(y.clone())), u.clone()),
+                    E::and(E::and(E::and(x.clone(), y.clone()), E::A(Act::Print)), u.clone()),
+                    E::and(E::and(x.clone(), y.clone()), E::or(E::T(Tst::True), u.clone())),
+                ] {
+                    let v = judge(&tr);
+                    std_.record(&v, stable_hash(&tr), true, || case_json(&tr));
+                }
+            }
+        }
+    }
+    std_.samples.truncate(1);
+    total.merge(std_);
     // interaction triples: three leaf kinds (supported and unsupported) under every operator skeleton
     let tr = crate::combo::run_triples(ctx.seed, &crate::combo::all_kinds(), ctx.tier.pick(32, 2), judge, case_json);
     total.merge(tr);
